@@ -44,6 +44,9 @@ class CheckFitInput(Contract):
         out += [
             {"rank": 1, "ncomp": 1, "weights": "none", "unpack": True, "same": False},
             {"rank": 1, "ncomp": 2, "weights": "match", "unpack": True, "same": False},
+            # rank 2: equal sizes do not imply equal shapes (transposed data must be rejected)
+            {"rank": 2, "ncomp": 1, "weights": "none", "unpack": True, "same": False},
+            {"rank": 2, "ncomp": 2, "weights": "match", "unpack": False, "same": False},
             {"rank": 1, "ncomp": 2, "weights": "one_for_two", "unpack": True, "same": True},
             {"rank": 1, "ncomp": 1, "weights": "wrong_size", "unpack": True, "same": True},
             {"rank": 2, "ncomp": 1, "weights": "wrong_size", "unpack": True, "same": True},
